@@ -143,9 +143,21 @@ def apply_method_min(text, counts):
         i = j + 5
 
 
+def apply_temp_guard(text, counts):
+    """R14: Rust drops a temporary at the end of the enclosing statement.  In
+        let p = X.ptr_guard[_mut]().as_ptr()...;
+    the guard is such a temporary: `p` outlives it.  The call is renamed as_ptr_temp(), whose contract
+    says exactly that (the pointer is no longer covered by a guard: not `live` for on-demand memory)."""
+    def fix(m):
+        counts['R14'] = counts.get('R14', 0) + 1
+        return m.group(1) + '.as_ptr_temp()'
+    return re.sub(r'(\blet\s+(?:mut\s+)?\w+(?:\s*:\s*[^=;]+)?\s*=\s*[^;]*?\.ptr_guard(?:_mut)?\(\))\.as_ptr\(\)', fix, text)
+
+
 def apply_global(text, counts, extra=()):
     text = apply_macro_asserts(text, counts)
     text = apply_method_min(text, counts)
+    text = apply_temp_guard(text, counts)
     for rid, pat, rep, _ in list(GLOBAL_REWRITES):
         text, n = re.subn(pat, rep, text)
         if n:
@@ -414,7 +426,8 @@ class Unit:
         while self.tpl[i].strip() != '//@enditem':
             s = self.tpl[i].strip()
             if s.startswith('//@sub '):
-                a, b = s[len('//@sub '):].split(' => ', 1)
+                a, b = (s[len('//@sub '):] + ' ').split(' => ', 1) if ' => ' in (s + ' ') else (s[len('//@sub '):], '')
+                b = b.rstrip(' ') if b.strip() == '' else b[:-1]
                 subs.append((a.strip(), b))
             i += 1
         it = self.src(rel).find_item(ctxl, pat)
@@ -464,7 +477,8 @@ class Unit:
                 i += 1
                 break
             if s.startswith('//@sub '):
-                a, b = s[len('//@sub '):].split(' => ', 1)
+                a, b = (s[len('//@sub '):] + ' ').split(' => ', 1) if ' => ' in (s + ' ') else (s[len('//@sub '):], '')
+                b = b.rstrip(' ') if b.strip() == '' else b[:-1]
                 subs.append((a.strip(), b))
                 i += 1
             elif s.startswith('//@spec'):
